@@ -8,7 +8,7 @@ import TrompModel.Model.CxxBase
 import TrompModel.Model.Range
 namespace Tromp.Cxx
 
-/-- `impl::ends_with_range_checker::operator()` — translated from include/trompeloeil/matcher/range.hpp:773 -/
+/-- `impl::ends_with_range_checker::operator()` — translated from include/trompeloeil/matcher/range.hpp:782 -/
 def ends_with_range {α μ : Type} (accepts : μ → α → Bool) (range : List α) (elements : List μ) : Bool := Id.run do
   let mut it : List α := range
   let num_values := elements.length
